@@ -75,6 +75,35 @@ def _fault_scn(sid, kind, n, plan, raises=0, applied=False, complete_first=False
     return {"id": sid, "strategies": [{"name": "A"}], "steps": steps, "seed": 1}
 
 
+def reuse_family(tier):
+    """a trade that completed once receives a new order (the strategy re-enters in the same trade); the placement then
+    meets every outcome: each report, API errors on the 1st..4th attempt (exhausted retries complete the order), with
+    a second strategy-free check afterwards that the runner is open for business again"""
+    from harness.gen_live import PLACE_OUT
+    scns = []
+    k = 0
+    for first_end in ("fill", "lapse"):
+        outcomes = [("rep", o) for o in sorted(set(PLACE_OUT))] + [("raise", (f, ap)) for f in (1, 2, 3, 4) for ap in (False, True)]
+        for what, arg in outcomes:
+            k += 1
+            steps = [{"op": "book"}, {"op": "req", "actions": [{"op": "place", "o": "o1", "t": "t_o1", "sel": 11, "side": "BACK", "price": 2.0, "size": 4.0}]},
+                     {"op": "run", "i": 0, "plan": {}}, {"op": "snap"}, {"op": "proc"},
+                     {"op": first_end, "o": "o1", "amount": 4.0}, {"op": "snap"}, {"op": "proc"},
+                     {"op": "req", "actions": [{"op": "place", "o": "o2", "t": "t_o1", "sel": 11, "side": "BACK", "price": 2.2, "size": 2.0}]}]
+            if what == "rep":
+                steps.append({"op": "run", "i": 0, "plan": {"reports": [arg]}})
+            else:
+                fails, applied = arg
+                for a in range(fails):
+                    steps.append({"op": "run", "i": 0, "plan": {"raise": True, "apply": applied and a == 0}})
+            steps += [{"op": "run", "i": 0, "plan": {}}, {"op": "run", "i": 0, "plan": {}}, {"op": "snap"}, {"op": "proc"}, {"op": "snap"}, {"op": "proc"}]
+            # the strategy comes back to the runner with a fresh trade
+            steps += [{"op": "req", "actions": [{"op": "place", "o": "o3", "t": "t_o3", "sel": 11, "side": "BACK", "price": 2.4, "size": 2.0}]},
+                      {"op": "run", "i": 0, "plan": {}}, {"op": "snap"}, {"op": "proc"}]
+            scns.append({"id": "ru%d" % k, "strategies": [{"name": "A"}], "steps": steps, "seed": 1})
+    return scns
+
+
 def line_family(tier):
     """line markets (one selection id on several handicaps): orders and adopted bets on lines of a selection,
     with and without an order on the handicap-0 runner of the same selection, crash + restart, completion after it"""
@@ -128,6 +157,9 @@ def run_check(prop, tier, seed, designs=None, only_live=True, replay=None):
             scns[scn["id"]] = scn
     if prop in ("C11", "C10", "C15") and not replay:
         for scn in line_family(tier):
+            scns[scn["id"]] = scn
+    if prop in ("C10", "C12") and not replay:
+        for scn in reuse_family(tier):
             scns[scn["id"]] = scn
     traces = [run_live(s) for s in scns.values()]
     # E2: behaviours of the design model MC_LiveRun generated by TLC, stepped through the real code
